@@ -2396,10 +2396,63 @@ class Engine:
         fr.i += 1
 
     def op_select(self, st, fr, ins):
-        h = self.intrinsics.get("select")
-        if h is None:
-            raise Unsupported("select")
-        return h(self, st, fr, ins)
+        """select over modelled channels: a receive is ready when the queue is non-empty or the channel is closed; a send is
+        always ready (queues are unbounded). Several ready cases fork; none ready: default if present, else the path blocks."""
+        ready = []
+        states = ins["states"]
+        for idx, sdesc in enumerate(states):
+            ch = self.val(st, fr, sdesc["chan"])
+            if ch is None:
+                continue
+            c = st.heap[ch.obj]
+            if sdesc["dir"] == 2:  # RecvOnly
+                if c.items or c.closed:
+                    ready.append(idx)
+            else:
+                if c.closed:
+                    raise GoPanic("send on closed channel (select)")
+                ready.append(idx)
+        nrecv = [i for i, sdesc in enumerate(states) if sdesc["dir"] == 2]
+
+        def complete(s, f, idx):
+            vals = [idx, False]
+            for i in nrecv:
+                vals.append(None)
+            if idx >= 0:
+                sdesc = states[idx]
+                ch = self.val(s, f, sdesc["chan"])
+                c = s.heap[ch.obj]
+                et = self.ir.under(self.objtype[ch.obj])["elem"]
+                if sdesc["dir"] == 2:
+                    if c.items:
+                        v, ok = c.items[0], True
+                        s.heap[ch.obj] = GoChan(c.items[1:], c.cap, c.closed)
+                    else:
+                        v, ok = self.zero(et), False
+                    vals[1] = ok
+                    vals[2 + nrecv.index(idx)] = v
+                else:
+                    s.heap[ch.obj] = GoChan(c.items + (self.val(s, f, sdesc["send"]),), c.cap, c.closed)
+            # zero values for the other receive slots
+            for k, i in enumerate(nrecv):
+                if vals[2 + k] is None and i != idx:
+                    chv = self.val(s, f, states[i]["chan"])
+                    if chv is not None:
+                        vals[2 + k] = self.zero(self.ir.under(self.objtype[chv.obj])["elem"])
+            f.locals[ins["r"]] = tuple(vals)
+            f.i += 1
+        if not ready:
+            if ins["blocking"]:
+                raise PathEnd("blocked", "select with no ready case")
+            complete(st, fr, -1)
+            return
+        if len(ready) == 1:
+            complete(st, fr, ready[0])
+            return
+
+        def mk(idx):
+            return lambda s: complete(s, s.frames[-1], idx)
+        raise Fork([(None, mk(i)) for i in ready])
 
     # ------------------------------------------------------------------ builtins
     def builtin(self, st, fr, ins, name, args):
